@@ -28,8 +28,8 @@ try:
             # a shell demonstration that locates the worktree root relative to itself (MUT/<name>/demo.sh) and uses target/debug
             d = os.path.join(wt, "MUT", name)
             os.makedirs(d, exist_ok=True)
-            for f in ("demo.sh", "expected.txt"):
-                if os.path.exists(os.path.join(src, f)):
+            for f in os.listdir(src):
+                if f != "patch.diff" and os.path.isfile(os.path.join(src, f)):
                     shutil.copy(os.path.join(src, f), os.path.join(d, f))
             e2 = dict(env); e2.pop("CARGO_TARGET_DIR", None)
             r = subprocess.run("sh MUT/%s/demo.sh" % name, shell=True, cwd=wt, env=e2, stdout=subprocess.PIPE, stderr=subprocess.STDOUT, text=True, timeout=900)
@@ -70,7 +70,7 @@ try:
         out = "/verif/seeded/%s-%s" % (prop, name)
         os.makedirs(out, exist_ok=True)
         open(os.path.join(out, "patch.diff"), "w").write(diff)
-        for f in ("demo.scm", "expected.txt", "demo_test.rs", "demo.sh", "notes.md"):
+        for f in ("demo.scm", "expected.txt", "demo_test.rs", "demo.sh", "input.txt", "notes.md"):
             if os.path.exists(os.path.join(src, f)):
                 shutil.copy(os.path.join(src, f), os.path.join(out, f))
         meta = {"breaks_property": prop, "name": name, "origin": "independent sub-agent given only the property text and a scratch worktree",
